@@ -383,6 +383,12 @@ def real_cases(draw):
             e = ["add", ["slice", ["base", b], [None, m_ + 1, None]], ["slice", ["base", b], [m_, None, None]]]
             if draw(BOOL):
                 e = ["add", ["base", b], ["inv", ["base", b]]]
+    if len(bases) >= 2 and draw(INT(0, 7)) == 0:
+        # a zero-width operand of another direction: the width and mask stay, the direction still has to be met
+        a_, b_ = 0, 1
+        bases[b_]["w"] = 0; bases[b_]["inv"] = []; bases[b_]["inv_form"] = 2
+        bases[b_]["dir"] = PICK(draw, [d_ for d_ in DIRS if d_ != bases[a_]["dir"]])
+        e = ["add", ["base", a_], ["base", b_]] if draw(BOOL) else ["add", ["base", b_], ["base", a_]]
     second = None
     if draw(INT(0, 2)) == 0:
         second = [draw(INT(0, len(bases) - 1)), draw(BOOL), PICK(draw, DIRS)]
@@ -545,6 +551,15 @@ def real_body(ctx, case):
             probs = RC.check(design, partly_used_pads={"\\" + pt.name for pt in iops + ions})
             if probs:
                 raise Mismatch("rtlil-not-well-formed", problems=probs[:4], expr=e)
+            # the top-level direction of a pad follows the buffers on it, however few of its bits they cover
+            topm = [m_ for m_ in design.modules.values() if "\\top" in m_.attrs][0]
+            want_kind = {"i": "input", "o": "output", "io": "inout"}[bd]
+            for b_ in sorted({b_ for b_, _, _ in bits}):
+                wire = topm.wires.get("\\" + f"pad{b_}")
+                if wire is None or wire.port_kind != want_kind:
+                    raise Mismatch("rtlil-pad-direction", expr=e, pad=b_, expected=want_kind,
+                                   actual=None if wire is None else wire.port_kind, used_bits=sorted(k_ for bb, k_, _ in bits if bb == b_))
+                if len({k_ for bb, k_, _ in bits if bb == b_}) < wire.width: ctx.tally("real:partly-used-pad-direction-checked")
             ev = RE.Evaluator(design)
             pname = lambda b_: "\\" + (f"pad{b_}")
             if bd == "i":
@@ -588,4 +603,4 @@ REQUIRED = ["sim:buf-i", "sim:buf-o", "sim:buf-io", "sim:port-io", "sim:mixed-ma
             "sim:negative-index", "sim:stepped-slice", "sim:buffer-direction-refused", "sim:expression-rejected",
             "ff:buf-i", "ff:buf-o", "ff:buf-io", "ff:mixed-mask", "ff:coincident-edges",
             "real:single", "real:diff", "real:buf-io", "real:mixed-mask", "real:ops>=2", "real:overlap-rejected", "real:overlap-within-one-expression-rejected",
-            "real:two-disjoint-buffers", "real:netlist-evaluated", "real:rtlil-evaluated", "real:buffer-under-control-inserter"]
+            "real:two-disjoint-buffers", "real:netlist-evaluated", "real:rtlil-evaluated", "real:buffer-under-control-inserter", "real:partly-used-pad-direction-checked"]
